@@ -40,6 +40,18 @@ func init() {
 		"(time.Time).Sub":         nativeFreshPure,
 		"(time.Duration).Seconds": nativeFreshPure,
 		"context.Background":      nativeNonNilIface,
+		"sync/atomic.AddInt64":    nativeAtomicAdd,
+		"sync/atomic.AddInt32":    nativeAtomicAdd,
+		"sync/atomic.AddUint64":   nativeAtomicAdd,
+		"sync/atomic.AddUint32":   nativeAtomicAdd,
+		"sync/atomic.LoadInt64":   nativeAtomicLoad,
+		"sync/atomic.LoadInt32":   nativeAtomicLoad,
+		"sync/atomic.LoadUint64":  nativeAtomicLoad,
+		"sync/atomic.LoadUint32":  nativeAtomicLoad,
+		"sync/atomic.StoreInt64":  nativeAtomicStore,
+		"sync/atomic.StoreInt32":  nativeAtomicStore,
+		"sync/atomic.StoreUint64": nativeAtomicStore,
+		"sync/atomic.StoreUint32": nativeAtomicStore,
 		"context.TODO":            nativeNonNilIface,
 	}
 }
@@ -97,6 +109,13 @@ func (v *Verifier) typeContractFor(st types.Type) *TypeContract {
 
 func (v *Verifier) lock(s *State, mu *Value, write bool, pos token.Pos) {
 	key, obj, st, field := v.lockKey(mu)
+	if os.Getenv("GOVC_DEBUG") != "" {
+		fn := "<nil>"
+		if s.frame != nil {
+			fn = funcRef(s.frame.fn)
+		}
+		fmt.Fprintf(os.Stderr, "DEBUG lock key=%s field=%s in %s top=%s\n", key, field, fn, funcRef(v.top))
+	}
 	for _, h := range s.held {
 		if h.key == key {
 			v.addOb(s, "lock", pos, False, "re-entrant lock of "+field+" (self-deadlock)", nil)
@@ -359,4 +378,36 @@ func (v *Verifier) assumeMapValuesAllocated(s *State, m *Value) {
 		sel := selectN(Select(h, m.term()), keys)
 		s.assume(Forall(keys, Le(sel, s.wm), []*Term{sel}))
 	}
+}
+
+
+// ---------- sync/atomic: plain loads and stores that are exempt from the lock discipline ----------
+
+func (v *Verifier) atomicLV(s *State, p *Value, pos token.Pos) *LValue {
+	if p.LV != nil {
+		return p.LV
+	}
+	et := under(p.T).(*types.Pointer).Elem()
+	v.nilCheck(s, p.term(), pos)
+	return &LValue{kind: lvPtr, obj: p.term(), t: et, rootT: et}
+}
+
+func nativeAtomicLoad(v *Verifier, s *State, c *ssa.CallCommon, f *ssa.Function, a []*Value, p token.Pos) *Value {
+	lv := v.atomicLV(s, a[0], p)
+	val := s.load(lv)
+	return &Value{T: resultType(c), L: val.L}
+}
+
+func nativeAtomicStore(v *Verifier, s *State, c *ssa.CallCommon, f *ssa.Function, a []*Value, p token.Pos) *Value {
+	lv := v.atomicLV(s, a[0], p)
+	s.store(lv, &Value{T: lv.t, L: a[1].L})
+	return nil
+}
+
+func nativeAtomicAdd(v *Verifier, s *State, c *ssa.CallCommon, f *ssa.Function, a []*Value, p token.Pos) *Value {
+	lv := v.atomicLV(s, a[0], p)
+	val := s.load(lv)
+	n := wrapInt(Add(val.term(), a[1].term()), lv.t, true)
+	s.store(lv, scalar(lv.t, n))
+	return scalar(resultType(c), n)
 }
